@@ -27,6 +27,8 @@ def cxx_show(p, i):
         return "sh_t(%s);" % n
     if p.fam in ("native", "bool") and p.mode != "val" and p.intent == "out":
         return 'printf("_");'
+    if p.fam == "native" and p.mode in ("pp", "pr"):
+        return show(p.t, "**%s" % n if p.mode == "pp" else "*%s" % n)
     if p.fam == "native":
         return show(p.t, d)
     if p.fam == "bool":
@@ -51,6 +53,8 @@ def cxx_set(f, p):
         return ""
     d = p.name if p.mode != "ptr" else "(*%s)" % p.name
     c = f.consts.get(p.name)
+    if p.fam == "native" and p.mode in ("pp", "pr"):
+        return "static %s keep_%s = %s; %s%s = &keep_%s;" % (p.t, p.name, lit(p.t, c), "*" if p.mode == "pp" else "", p.name, p.name)
     if p.fam == "native":
         return "%s = %s;" % (d, lit(p.t, c))
     if p.fam == "bool":
@@ -201,6 +205,12 @@ def emit_call(E, f, cname, ndef, tt, rnd, self_obj=None):
             if p.mode == "val":
                 args.append(lit(t, val))
                 exp_in.append(rep(t, val))
+            elif p.mode in ("pp", "pr"):
+                pre.append("%s %s = %s; %s *p%s = &%s;" % (t, v, lit(t, val), t, v, v))
+                args.append("&p" + v)
+                exp_in.append("_" if p.intent == "out" else rep(t, val))
+                after.append((i, c_show_native(t, "*p" + v)))
+                exp_out.append((i, rep(t, val if p.intent == "in" else f.consts[p.name])))
             else:
                 pre.append("%s %s = %s;" % (t, v, lit(t, val)))
                 args.append("&" + v)
@@ -503,6 +513,7 @@ def run(ctx, thorough):
     work = common.scratch()
     jobs = []
     kinds = {}
+    shapes = {}
     try:
         run_corpus(ctx, work)
         for i in range(nlib + 1):
@@ -516,6 +527,8 @@ def run(ctx, thorough):
                          {"yaml": spec.yaml()})
                 continue
             jobs.append((spec, d))
+            for sh_ in spec.overload_shapes():
+                shapes[sh_] = shapes.get(sh_, 0) + 1
         with ThreadPoolExecutor(max_workers=min(8, max(1, len(jobs)))) as ex:
             results = list(ex.map(lambda j: compile_and_run(j[1], j[0], rounds), jobs))
         ncalls = 0
@@ -581,6 +594,7 @@ def run(ctx, thorough):
                      {"yaml": ytext, "function": c["function"], "values": c["values"], "expected": e, "actual": a,
                       "sanitizer": [l for l in res["out"].split("\n") if "Sanitizer" in l or "runtime error" in l][:3]})
         ctx.count(ncalls)
+        ctx.note("overload_shapes_oracle", dict(sorted(shapes.items())))
         ctx.note("oracle_libraries", len(jobs))
         ctx.note("oracle_trace_lines", ncalls)
         ctx.note("oracle_function_kinds", len(kinds))
